@@ -1089,7 +1089,7 @@ impl<'a, 'b> TryInto<AnnotationBuilder<'a>> for AnnotationCsv<'a> {
                                 ));
                             }
                             let offset: Option<Offset> = if beginoffsets.get(i).is_some() && !beginoffsets.get(i).unwrap().is_empty() {
-                                if endoffsets.get(i).is_none() && !endoffsets.get(i).unwrap().is_empty() {
+                                if endoffsets.get(i).map(|x| x.is_empty()).unwrap_or(true) {
                                     return Err(StamError::CsvError(
                                     format!(
                                         "No end offset specified for subselector #{}", i
@@ -1134,7 +1134,12 @@ impl<'a, 'b> TryInto<AnnotationBuilder<'a>> for AnnotationCsv<'a> {
                         }
                         SelectorKind::DataKeySelector  => {
                             let dataset = targetdatasets.get(i).unwrap_or(targetdatasets.last().unwrap());
-                            let datakey = targetkeys.get(i).unwrap_or(targetkeys.last().unwrap());
+                            let datakey = targetkeys.get(i).or(targetkeys.last()).ok_or_else(|| StamError::CsvError(
+                                format!(
+                                    "No key specified for subselector #{}", i
+                                ),
+                                "DataKeySelector",
+                            ))?;
                             if dataset.is_empty() {
                                 return Err(StamError::CsvError(
                                 format!(
@@ -1147,7 +1152,12 @@ impl<'a, 'b> TryInto<AnnotationBuilder<'a>> for AnnotationCsv<'a> {
                         }
                         SelectorKind::AnnotationDataSelector  => {
                             let dataset = targetdatasets.get(i).unwrap_or(targetdatasets.last().unwrap());
-                            let data = targetdata.get(i).unwrap_or(targetdata.last().unwrap());
+                            let data = targetdata.get(i).or(targetdata.last()).ok_or_else(|| StamError::CsvError(
+                                format!(
+                                    "No data specified for subselector #{}", i
+                                ),
+                                "AnnotationDataSelector",
+                            ))?;
                             if dataset.is_empty() {
                                 return Err(StamError::CsvError(
                                 format!(
